@@ -28,7 +28,7 @@ MapOps ==
 
 Ops == IF mode = "list" THEN ListOps ELSE MapOps
 
-Init == mode \in Modes /\ ty \in (IF mode = "list" THEN {"int", "str", "opt"} ELSE {"int"}) /\ hist = <<>>
+Init == mode \in Modes /\ ty \in (IF mode = "list" THEN {"int", "str", "opt"} ELSE {"int", "opt"}) /\ hist = <<>>
 Next == /\ Len(hist) < MaxLen
         /\ \E o \in Ops : hist' = Append(hist, o)
         /\ UNCHANGED <<mode, ty>>
@@ -81,7 +81,8 @@ ListPrologue == <<LetT("a", LTy, List(<<Val(1), Val(2), Val(3)>>)),
                   Let("k", I(0))>>
 
 -----------------------------------------------------------------------------
-MTy == "map[str, int]"
+MTy == IF ty = "opt" THEN "map[str, int?]" ELSE "map[str, int]"
+MVal(n) == IF ty = "opt" /\ n % 2 = 1 THEN Nil ELSE I(n)       \* optional-valued maps store nil under some keys
 ShowM == Fn("showm", <<P("x", MTy)>>, "int",
             <<Print(MCall(V("x"), "len", <<>>)),
               Print(MCall(MCall(V("x"), "keys", <<>>), "len", <<>>)),
@@ -93,17 +94,20 @@ ShowM == Fn("showm", <<P("x", MTy)>>, "int",
               Print(Bin("!=", MCall(MCall(V("x"), "keys", <<>>), "index_of", <<S("k2")>>), Nil)),
               Ret(I(0))>>)
 ObserveM == <<ExprS(Call(V("showm"), <<V("m")>>)), ExprS(Call(V("showm"), <<V("e")>>)), ExprS(Call(V("showm"), <<V("n")>>))>>
-MapLit(kvs) == [k |-> "map", kt |-> "str", vt |-> "int", kvs |-> kvs, braces |-> TRUE]
-KV(k, v) == [key |-> S(k), val |-> I(v)]
+MapLit(kvs) == [k |-> "map", kt |-> "str", vt |-> (IF ty = "opt" THEN "int?" ELSE "int"), kvs |-> kvs, braces |-> TRUE]
+KV(k, v) == [key |-> S(k), val |-> MVal(v)]
 MapPrologue == <<Let("showm", ShowM),
-                 Let("m", MapLit(<<KV("k1", 1), KV("k2", 2)>>)),
+                 Let("m", MapLit(IF ty = "opt" THEN <<>> ELSE <<KV("k1", 1), KV("k2", 2)>>))>>
+               \o (IF ty = "opt" THEN <<Assign(Idx(V("m"), S("k1")), "=", Nil), Assign(Idx(V("m"), S("k2")), "=", I(2))>> ELSE <<>>)
+               \o <<
                  Let("e", MapLit(<<>>)),
                  Let("n", V("m"))>>
 MapStmts(o, n) ==
-    CASE o.op = "mset" -> <<Assign(Idx(V(o.x), S(o.k)), "=", I(30 + n))>>
+    CASE o.op = "mset" -> <<Assign(Idx(V(o.x), S(o.k)), "=", MVal(30 + n))>>
       [] o.op = "mread" -> <<IfElse(MCall(V(o.x), "contains_key", <<S(o.k)>>), <<Print(Idx(V(o.x), S(o.k)))>>, <<Print(S("absent"))>>)>>
-      [] o.op = "mopset" -> <<If(MCall(V(o.x), "contains_key", <<S(o.k)>>), <<Assign(Idx(V(o.x), S(o.k)), "+", I(100))>>)>>
-      [] o.op = "replace" -> <<Print(MCall(V(o.x), "replace", <<S(o.k), I(50 + n)>>))>>
+      [] o.op = "mopset" -> IF ty = "opt" THEN <<Assign(Idx(V(o.x), S(o.k)), "=", Nil)>>
+                            ELSE <<If(MCall(V(o.x), "contains_key", <<S(o.k)>>), <<Assign(Idx(V(o.x), S(o.k)), "+", I(100))>>)>>
+      [] o.op = "replace" -> <<Print(MCall(V(o.x), "replace", <<S(o.k), MVal(50 + n)>>))>>
       [] o.op = "mremove" -> <<Print(MCall(V(o.x), "remove", <<S(o.k)>>))>>
       [] o.op = "contains" -> <<Print(MCall(V(o.x), "contains_key", <<S(o.k)>>))>>
       [] o.op = "mlen" -> <<Print(MCall(V(o.x), "len", <<>>))>>
